@@ -127,6 +127,19 @@ func checkC11(c *core.Ctx) {
 			c.Inconclusive("harness: base text does not tokenise: " + base)
 			return
 		}
+		// a third of the classes use symbols outside the dictionary (text conv does not look symbols up): other
+		// scripts' digits and letters, signs - everything that lexes as a symbol without needing `_`
+		if i%3 == 1 {
+			toks := append([]grammar.Token(nil), bt.Tokens...)
+			for k := range toks {
+				if toks[k].Kind == "SYMBOL" && (k == 0 || toks[k-1].Kind != "UNDERSCORE") && r.Intn(2) == 0 {
+					toks[k].Val = bareSymbols[r.Intn(len(bareSymbols))]
+				}
+			}
+			if cand := joinTokens(toks, nil, false); sameTokens(grammar.Tokenize([]byte(cand)).Tokens, toks) {
+				base, bt = cand, grammar.Tokenize([]byte(cand))
+			}
+		}
 		ref := run(c, []byte(base), args...)
 		c.Eval(1)
 		if infra(c, ref) {
@@ -136,11 +149,33 @@ func checkC11(c *core.Ctx) {
 			c.Violate("class", i, fmt.Sprintf("class#%d:abnormal", i), "text conv "+a+" on "+qs([]byte(base)), obs(ref))
 			return
 		}
+		// members with very long physical lines: one comment line of several KiB in front, between and behind
+		longLine := ""
+		if i%4 == 2 {
+			longLine = ";" + strings.Repeat([]string{"-", "= ruler ", "C[1] D[1] ", "♭x"}[r.Intn(4)], 600+r.Intn(2500)) + "\n"
+		}
 		texts := map[string]bool{base: true}
 		features := map[string]bool{}
 		for v := 0; v < nv; v++ {
 			f := map[string]bool{}
 			vt := variantOf(bt.Tokens, r, f)
+			if longLine != "" {
+				switch v % 3 {
+				case 0:
+					vt = longLine + vt
+				case 1:
+					vt = vt + "\n" + longLine
+				default:
+					// the whole piece on one physical line behind a long run of blanks
+					if one := strings.Repeat(" \t", 2100+r.Intn(500)) + joinTokens(bt.Tokens, nil, false); sameTokens(normTokens(grammar.Tokenize([]byte(one)).Tokens), normTokens(bt.Tokens)) {
+						vt = one
+					}
+				}
+				if tr := grammar.Tokenize([]byte(vt)); tr.LexErr || !sameTokens(normTokens(tr.Tokens), normTokens(bt.Tokens)) {
+					continue
+				}
+				f["long-line"] = true
+			}
 			if texts[vt] {
 				continue
 			}
@@ -187,6 +222,64 @@ func checkC11(c *core.Ctx) {
 				}
 			}
 			c.Sample(map[string]any{"args": strings.Join(args, " "), "spellings": l})
+		}
+	})
+
+	// a Unicode accidental sign that straddles a 4096-byte boundary of the input: comment lines in front put the
+	// first sign of the text at byte 4094 or 4095 (mod 4096); same bytes as the text without the padding
+	c.Stream("boundary", c.N(150, 3000), func(i int, r *rand.Rand) {
+		syllable := i%2 == 0
+		p := model.RandPiece(r, model.GenOpts{MinLen: 1, MaxLen: 4, RestProb: 0.1, SettingProb: 0.1, KeyChanges: syllable, BassProb: 0.6, MaxDeg: 7, SimpleOnly: true, TextSafe: true})
+		var base string
+		var args []string
+		ok := false
+		if syllable {
+			key := model.RandKey(r)
+			base, ok = p.SyllableTextPiece(key, model.TextOpts{UnicodeAcc: true})
+			args = []string{"text", "conv", "syllable", "--key", key}
+		} else {
+			base, ok = p.DegreeTextPiece(model.TextOpts{UnicodeAcc: true})
+			args = []string{"text", "conv", "degree"}
+		}
+		idx := strings.IndexAny(base, "♯♭")
+		if !ok || idx < 0 {
+			return
+		}
+		target := 4096*(1+i%3) - 1 - (i/2)%2 - idx
+		var h strings.Builder
+		for h.Len() < target {
+			n := min(target-h.Len(), 90)
+			if rest := target - h.Len() - n; rest == 1 {
+				n--
+			}
+			h.WriteString(";" + strings.Repeat("~", n-2) + "\n")
+		}
+		padded := h.String() + base
+		ref := run(c, []byte(base), args...)
+		var got *runner.Result
+		switch i % 3 {
+		case 0:
+			got = run(c, []byte(padded), args...)
+		case 1:
+			got = run(c, nil, append(append([]string{}, args...), c.Scratch.File("pad.txt", []byte(padded)))...)
+		default:
+			got = c.Crd.Run(runner.Opt{Stdin: []byte(padded), StdinKind: "file"}, args...)
+		}
+		c.Eval(2)
+		if infra(c, ref) || infra(c, got) {
+			return
+		}
+		if a := abnormal(got); a != "" {
+			c.Violate("boundary", i, "boundary:abnormal", "text conv "+a, obs(got))
+			return
+		}
+		if got.OK() != ref.OK() || !bytes.Equal(got.Stdout, ref.Stdout) {
+			c.Violate("boundary", i, "boundary:bytes", fmt.Sprintf("%s converts differently when %d bytes of comment lines in front of it put its first accidental sign across a 4096-byte boundary: %s", qs([]byte(base)), h.Len(), firstLineDiff(ref.Stdout, got.Stdout)), map[string]any{"base": obs(ref), "padded_stderr": short(string(got.Stderr), 300)})
+			return
+		}
+		c.Seen("variations", "sign-across-buffer-boundary")
+		if ref.OK() {
+			c.Nontrivial(fmt.Sprintf("boundary%d", i))
 		}
 	})
 
@@ -245,7 +338,7 @@ func checkC11(c *core.Ctx) {
 
 func featureList(f map[string]bool) string {
 	var l []string
-	for _, k := range []string{"comment", "leading-zero", "underscore", "unicode"} {
+	for _, k := range []string{"comment", "leading-zero", "underscore", "unicode", "long-line"} {
 		if f[k] {
 			l = append(l, k)
 		}
